@@ -5,6 +5,7 @@ import (
 	"errors"
 	"fmt"
 	"io/fs"
+	"sort"
 	"strings"
 	"testing"
 
@@ -244,7 +245,13 @@ func TestCheck(t *testing.T) {
 		trees := cfgm.StartTrees()
 		trees["brackets"] = []fsx.Op{{K: "WriteFile", P: "/w/a]", Data: "1", Perm: 0o644}, {K: "WriteFile", P: "/w/[b", Data: "2", Perm: 0o644}, {K: "Mkdir", P: "/w/c]d", Perm: 0o755},
 			{K: "WriteFile", P: "/w/c]d/e", Data: "3", Perm: 0o644}, {K: "Mkdir", P: "/w/a", Perm: 0o755}, {K: "WriteFile", P: "/w/a/x]y", Data: "4", Perm: 0o644}, {K: "WriteFile", P: "/w/a/[", Data: "5", Perm: 0o644}}
-		for name, build := range trees {
+		var treeNames []string
+		for name := range trees {
+			treeNames = append(treeNames, name)
+		}
+		sort.Strings(treeNames) // (a run is a function of the seed, not of map order)
+		for _, name := range treeNames {
+			build := trees[name]
 			for _, cwd := range []string{"", "/w", "/w/a"} {
 				idx++
 				if idx%c.NShards != c.Shard {
